@@ -95,7 +95,7 @@ def handle_type(ct):
     t = t.rstrip('&').strip()
     if t.endswith(' const'):
         t = t[:-6]
-    return t if t.startswith(IP + '<') else None
+    return t if t.startswith(IP + '<') and t.endswith('>') else None      # not a type nested in the handle (IntrusivePtr<T>::Tag)
 
 
 # ============================================================================================
@@ -629,7 +629,7 @@ class RefInterp(ObjInterp):
         g = self.tu.cfg(fr.fn)
         for b in g.blocks.values():
             for e in b.el:
-                if e[0] == 'I' and e[1] == n['id']:
+                if e[0] == 'I' and (e[1] == n['id'] or (self.tu.strip(self.tu.node(e[1])) or {}).get('id') == n['id']):
                     return True
         return False
 
